@@ -2,6 +2,7 @@
 from __future__ import annotations
 
 import ast
+import re
 from dataclasses import dataclass
 from typing import List, Optional
 
@@ -229,3 +230,30 @@ def peel_floor(e: ast.AST):
             e = e.left
             continue
         return e, floors
+
+
+def alternative_route(p, numerator) -> bool:
+    """Is the value on this path produced by an ALTERNATIVE route the reduction rules do not follow?  The pattern `r = _fast(x); if r is None: <the plain
+    reduction>`: on the path where the helper answered, the numerator is whatever the helper assembled (partial maxima of slices that are stacked / concatenated
+    and reduced again, a product of a scale with the maximum of the codes).  Such a path is reported as undecided: the plain route next to it is what the
+    rules judge."""
+    import ast as _ast
+    txt = U(numerator)
+    if isinstance(numerator, _ast.Constant) and numerator.value is None:
+        return True
+    if any(k in txt for k in ("torch.cat(", "torch.stack(", "torch.maximum(")):
+        return True
+    for n in _ast.walk(numerator):
+        if isinstance(n, _ast.Call) and isinstance(n.func, _ast.Name) and n.func.id.startswith("_") and not n.func.id.startswith("__"):
+            return True
+        if isinstance(n, _ast.Attribute) and n.attr in ("_scale", "_data"):
+            return True  # a quantized operand reduced on its codes
+        if isinstance(n, _ast.Subscript) and isinstance(n.slice, _ast.Slice):
+            return True  # a slice of the operand: a partial reduction
+    for c, t, _ in p.conds:
+        ct = U(c)
+        if re.search(r"\b_[a-z]\w*\(", ct) and " is None" in ct and t is False:
+            return True
+        if "isinstance(" in ct and ("QBytesTensor" in ct or "QTensor" in ct) and t is True:
+            return True
+    return False
